@@ -76,6 +76,17 @@ Theorem add_spec : forall st a b st' id,
 Proof. exact add_result_lemma. Qed.
 Print Assumptions add_spec.
 
+(* the empty signal is neutral also for function backing: EmptySignal + FunctionSignal and FunctionSignal +
+   EmptySignal are function-backed with exactly the FunctionSignal's components (so a later re-gridding
+   re-evaluates the function, with_times_spec_function, instead of interpolating stored samples) *)
+Theorem add_with_empty_keeps_function : forall st a b st' id,
+  ((s_cls a = Empty /\ s_cls b = Fun) \/ (s_cls a = Fun /\ s_cls b = Empty)) ->
+  do_add st a b = (st', RObj id) ->
+  exists o', get_obj st' id = Some o' /\ s_cls o' = Fun /\
+             s_comps o' = s_comps (match s_cls a with Empty => b | _ => a end).
+Proof. exact add_with_empty_keeps_function_lemma. Qed.
+Print Assumptions add_with_empty_keeps_function.
+
 (* scaling: a new object on the same grid with the same type; every value multiplied *)
 Theorem scale_spec : forall st o f st' r,
   obj_wfL (lens st) o -> do_scale st o f = (st', r) ->
